@@ -5,6 +5,7 @@ CONSTANTS
   ObfsMin = 64
   ObfsMax = 8192
   MaxRead = 4096
+  DeadlineSource = "private"
   MarkMode = "release"
   MaxW = 3
   Cases = {}
